@@ -40,9 +40,26 @@ pub struct Case {
     pub mutation: Mutation,
     pub multi: bool,
     pub sizes: Vec<u32>,
+    /// > 0 (LZIP bases only): the mutants are read with LZIPReaderMT and this many workers on real threads
+    #[serde(default)]
+    pub mt_workers: u8,
 }
 
 pub struct C04;
+
+#[cfg(not(lzma_rust2_verif_shuttle))]
+fn decode_lzip_mt(stream: &[u8], workers: u32, sizes: &[u32], cap: usize) -> Result<std::io::Result<Vec<u8>>, Failure> {
+    let s = stream.to_vec();
+    no_panic("lzip-mt-decode", move || {
+        let mut r = lzma_rust2::LZIPReaderMT::new(std::io::Cursor::new(s), workers)?;
+        read_all(&mut r, sizes, cap)
+    })
+}
+
+#[cfg(lzma_rust2_verif_shuttle)]
+fn decode_lzip_mt(stream: &[u8], _workers: u32, sizes: &[u32], cap: usize) -> Result<std::io::Result<Vec<u8>>, Failure> {
+    decode_lzip(stream, sizes, cap)
+}
 
 fn small_unit_data() -> BoxedStrategy<Data> {
     prop_oneof![
@@ -92,9 +109,10 @@ impl Property for C04 {
                 .prop_map(|(seed, len, flavour)| Mutation::Garbage { seed, len, flavour })
                 .boxed(),
         };
-        (small_unit_data(), base, mutation, any::<bool>(), read_sizes_strategy())
-            .prop_map(|(data, base, mutation, multi, sizes)| Case {
+        (small_unit_data(), base, mutation, any::<bool>(), read_sizes_strategy(), prop_oneof![2 => Just(0u8), 1 => 1u8..=3])
+            .prop_map(|(data, base, mutation, multi, sizes, mt)| Case {
                 data,
+                mt_workers: if matches!(base, Base::Lzip { .. }) && !matches!(mutation, Mutation::BitFlips { .. }) { mt } else { 0 },
                 base,
                 mutation,
                 multi,
@@ -123,7 +141,7 @@ impl Property for C04 {
         vec![
             "liblzma arbitrates whether a mutant is a different valid file",
             "bit flips are exhaustive only for base files <= 600 bytes (class 'exhaustive_flips'), sampled beyond",
-            "LZIPReaderMT is exercised on corrupt input in C09 (deterministic scheduler), not here",
+            "LZIPReaderMT reads a third of the LZIP mutants here on real threads (its schedules are explored in C09)",
         ]
     }
 
@@ -161,7 +179,15 @@ impl Property for C04 {
         let base_hash = fnv64(&base);
 
         // sanity: the base decodes
-        let clean = if is_xz { decode_xz(&base, multi, &case.sizes, cap)? } else { decode_lzip(&base, &case.sizes, cap)? };
+        let mt = case.mt_workers as u32;
+        obs.class_if(mt > 0, "lzip_mt_reader");
+        let clean = if is_xz {
+            decode_xz(&base, multi, &case.sizes, cap)?
+        } else if mt > 0 {
+            decode_lzip_mt(&base, mt, &case.sizes, cap)?
+        } else {
+            decode_lzip(&base, &case.sizes, cap)?
+        };
         match clean {
             Ok(o) if o == content => {}
             Ok(o) => return Err(Failure::new("base-mismatch", first_diff(&o, &content))),
@@ -180,7 +206,13 @@ impl Property for C04 {
             }
             obs.evals += 1;
             obs.keys.push(base_hash ^ op.wrapping_mul(0x9E37_79B9_7F4A_7C15) ^ (pos as u64).wrapping_mul(0xD6E8_FEB8_6659_FD93));
-            let r = if is_xz { decode_xz(mutant, multi, &case.sizes, cap) } else { decode_lzip(mutant, &case.sizes, cap) };
+            let r = if is_xz {
+                decode_xz(mutant, multi, &case.sizes, cap)
+            } else if mt > 0 {
+                decode_lzip_mt(mutant, mt, &case.sizes, cap)
+            } else {
+                decode_lzip(mutant, &case.sizes, cap)
+            };
             let r = r.map_err(|mut f| {
                 f.detail = format!("{}: {}", what(), f.detail);
                 f
@@ -460,6 +492,42 @@ impl Property for C04 {
                         return Err(Failure::new("harness:walker", format!("{:?}", w.error)));
                     }
                     let mut k = 0usize;
+                    // member-level edits: all but the first n bytes of a member removed, the first n bytes of the
+                    // file removed, a member duplicated / removed / two members swapped
+                    let nm = w.members.len();
+                    for (i, mem) in w.members.iter().enumerate().take(4) {
+                        for n in [0usize, 1, 5, 6, 7, 19, 20, 21, 26, 40] {
+                            // an empty file is the recorded finding KF-LZIP-EMPTY-SOURCE (C05): not generated here
+                            if n < mem.size && !(n == 0 && nm == 1) {
+                                let mut m = base.clone();
+                                m.drain(mem.offset + n..mem.offset + mem.size);
+                                k += 1;
+                                check(&m, 10, k, &|| format!("member {i} of {nm} cut down to its first {n} bytes"), obs)?;
+                            }
+                        }
+                        if nm >= 2 {
+                            let mut m = base.clone();
+                            m.drain(mem.offset..mem.offset + mem.size);
+                            k += 1;
+                            check(&m, 10, k, &|| format!("member {i} of {nm} removed"), obs)?;
+                        }
+                        if i + 1 < nm {
+                            let nx = &w.members[i + 1];
+                            let mut m = Vec::new();
+                            m.extend_from_slice(&base[..mem.offset]);
+                            m.extend_from_slice(&base[nx.offset..nx.offset + nx.size]);
+                            m.extend_from_slice(&base[mem.offset..mem.offset + mem.size]);
+                            m.extend_from_slice(&base[nx.offset + nx.size..]);
+                            k += 1;
+                            check(&m, 10, k, &|| format!("members {i} and {} swapped", i + 1), obs)?;
+                        }
+                    }
+                    for n in 1..=26usize {
+                        if n < base.len() {
+                            k += 1;
+                            check(&base[n..], 10, k, &|| format!("first {n} bytes of the file removed"), obs)?;
+                        }
+                    }
                     for mem in &w.members {
                         let mut fields: Vec<(usize, usize, &'static str)> = vec![
                             (mem.offset, 4, "magic"),
